@@ -435,7 +435,7 @@ def judge_display(case, ctx, prefix, rng, p):
                     ctx.violation(f'{prefix}/print_active_reactive_power/direction/reactive', f'{s_!r} rendered as {pq!r}', {})
                 else:
                     judge_real(ctx, prefix, lines[1][4:], abs(s_.imag), p, 'var', T['default'], 'print_active_reactive_power/reactive')
-        w = rng.choice([0.0, 10 ** rng.uniform(-1, 5)])
+        w = rng.choice([0.0, 10 ** rng.uniform(-1, 5), 10 ** rng.uniform(-3, 11)])      # up to the GHz range (the hertz table goes to T)
         sin, dg, hz = rng.random() < 0.5, rng.random() < 0.5, rng.random() < 0.5
         judge_sinusoid_text(ctx, prefix, call(dsp.print_sinosoidal, z, 'V', p, w, sin, dg, hz), z, 'V', p, w, sin, dg, hz, 'print_sinosoidal')
     ctx.evaluated(repr(('display', p, case['seed'] % 40)), True)
